@@ -6,6 +6,7 @@ import (
 	"fmt"
 	"os"
 	"path/filepath"
+	"runtime"
 	"sort"
 	"strconv"
 	"strings"
@@ -71,9 +72,18 @@ func cmdCheck(args []string) int {
 	seed, _ := strconv.Atoi(os.Getenv("VERIF_SEED"))
 	start := time.Now()
 	cc := &checkCtx{prop: *prop, tier: *tier, repo: *repo, verif: *verif, seed: seed}
-	cc.timeout = 90 * time.Second
+	cc.timeout = 180 * time.Second
+	workers := 8
+	// a machine that is already busy (other checks running beside this one) gets fewer solver groups and more time per
+	// query: obligations that discharge in seconds on an idle machine must not time out because of the neighbours
+	if la := loadAverage(); la > 1.5*float64(runtime.NumCPU()) {
+		cc.timeout = 360 * time.Second
+		workers = 4
+	}
 	if *tier == "thorough" {
-		cc.timeout = 240 * time.Second
+		if cc.timeout < 240*time.Second {
+			cc.timeout = 240 * time.Second
+		}
 		coverPaths = 1 << 20
 	}
 	if t, err := strconv.Atoi(os.Getenv("GOVC_QUERY_TIMEOUT")); err == nil && t > 0 {
@@ -229,7 +239,7 @@ func cmdCheck(args []string) int {
 			}
 		}
 	}
-	SolveAll(all, cc.timeout, *tier == "thorough", 8)
+	SolveAll(all, cc.timeout, *tier == "thorough", workers)
 	solveS := time.Since(start).Seconds() - loadS - genS
 	if *dumpDir != "" {
 		os.MkdirAll(*dumpDir, 0o755)
@@ -467,6 +477,8 @@ func cmdCheck(args []string) int {
 		"inlined_external_leaves":        keys(inlined),
 		"known_findings_reconfirmed":     reconfirmed,
 		"samples":                        samples,
+		"query_timeout_s":                cc.timeout.Seconds(),
+		"solver_groups_in_parallel":      workers,
 		"phases_s":                       map[string]float64{"load": round3(loadS), "generate": round3(genS), "solve": round3(solveS)},
 		"contract_files":                 relFiles(cc.cs.Files),
 		"functions_tagged_with_property": nTagged,
@@ -574,4 +586,18 @@ func isEntryPoint(key string) bool {
 		}
 	}
 	return false
+}
+
+// loadAverage: the one-minute load average (0 when it cannot be read).
+func loadAverage() float64 {
+	data, err := os.ReadFile("/proc/loadavg")
+	if err != nil {
+		return 0
+	}
+	f := strings.Fields(string(data))
+	if len(f) == 0 {
+		return 0
+	}
+	v, _ := strconv.ParseFloat(f[0], 64)
+	return v
 }
